@@ -409,6 +409,20 @@ Theorem C19_repeat_call_changes_nothing :
 Proof. exact repeat_call_changes_nothing. Qed.
 Print Assumptions C19_repeat_call_changes_nothing.
 
+(* ... also after any number of other calls in between (a history): the repeat returns what the call
+   returned the first time and stores nothing. *)
+Theorem C19_history_repeat_changes_nothing :
+  forall (marshal : manifest -> str) (H : str -> str), H empty_json = empty_json_digest ->
+  forall tc c cs fa1 s s1 d m v sB rsB now' sC r,
+    t_key tc <> KFile ->
+    ann_get (created_key (c_fn c)) (o_ann (c_opts c)) = Some v ->
+    pack marshal H (c_fn c) tc fa1 s (c_at c) (c_opts c) (c_now c) = (s1, Ok d m) ->
+    run_calls marshal H tc None s1 cs = (sB, rsB) ->
+    pack marshal H (c_fn c) tc None sB (c_at c) (c_opts c) now' = (sC, r) ->
+    r = Ok d m /\ s_store sC = s_store sB.
+Proof. exact history_repeat_changes_nothing. Qed.
+Print Assumptions C19_history_repeat_changes_nothing.
+
 (* ... and the premise is needed: a file store refuses to write a named manifest twice. *)
 Theorem C19_repeat_call_file_store_refuted :
   exists o s1 d m s2,
